@@ -665,7 +665,8 @@ pub fn format_code(
 		ConvTypeV::Percent => tmp_out.push('%'),
 	}
 
-	let padding = width.saturating_sub(tmp_out.len() as u16);
+	// Width is counted in characters, not in bytes
+	let padding = width.saturating_sub(tmp_out.chars().count().min(u16::MAX as usize) as u16);
 
 	if !clfags.left {
 		for _ in 0..padding {
